@@ -30,6 +30,8 @@ class C09(Prop):
                 "NV.C09.batch_any_order_good", "NV.C09.stale_event_skipped", "NV.C09.freed_record_events_are_stale",
                 "NV.C09.accept_serial_fresh", "NV.C09.applyAction_resolved", "NV.C09.pending_entry_older_than_any_accept",
                 "NV.C09.abandoned_suffix", "NV.C09.abandoned_nil_of_ok", "NV.C09.findConn_id",
+                "NV.C09.snoop_input_path_safe", "NV.C09.packet_dropped_when_user_gone", "NV.C09.removed_snooper_leaves_no_link",
+                "NV.C09.snoop_loop_refused",
                 "NV.C09.input_to_cleared_before_callback", "NV.C09.input_to_first_wins", "NV.C09.input_to_takes_the_line",
                 "NV.C09.no_prompt_while_input_to_pending", "NV.C09.prompt_revalidates", "NV.C09.sweep_keeps_invariant",
                 "NV.C09.failing_cleanup_loses_reset_state", "NV.C09.cleanup_restores_reset_state",
